@@ -373,20 +373,16 @@ fn sagitta(outline: &[Point2]) -> f64 {
 
 struct Ctx { r: Report, m: Meter, known: String }
 
-// Clauses that FAIL on the tree as found because of a reported defect of engeom (see the list at `run`).  Their names start
-// with "[defect ...]".  A failure is recorded only once the clause is listed in /verif/known_findings.json (it is then
-// printed as KNOWN-FINDING and never raises an alarm; VERIF_KNOWN_FINDINGS overrides the path of that file); until then it
-// is only shown by VERIF_C10_MEASURE.  When the
-// defect is repaired the clause passes and counts like any other.
+// Clauses that FAILED on the tree as found because of a defect of engeom this check exposed (names start with "[defect ...]").
+// Four of them were repaired in /repo (fix: commits, see /verif/known_findings.json "fixed"): their clauses are ordinary
+// clauses now and report the violation again if it returns. The remaining one ("arc detection below the absolute
+// collinearity threshold") is listed as a known finding and printed as KNOWN-FINDING by the driver.
 fn defect<F: FnOnce() -> String>(cx: &mut Ctx, cond: bool, what: &str, input: F) {
-    // listed = the tag between the brackets occurs in the file (the obligation_re of the entry quotes it)
-    let tag = what.split(']').next().unwrap_or("").trim_start_matches('[');
-    if cond || cx.known.contains(tag) { cx.r.check(cond, what, input); }
-    else if cx.m.on { eprintln!("C10-DEFECT (not yet listed in known_findings.json) {} | input: {}", what, input()); }
+    cx.r.check(cond, what, input);
 }
 const F_CONSTR: &str = "[defect ConstRadiusEdge forged station] contact_pos of the station ConstRadiusEdge appends is the contact in the positive direction of its spanning ray (camber direction towards the trailing edge)";
 const F_OPEN: &str = "[defect OpenEdge ignores front] OpenEdge at the LEADING end reports the centre of the first (leading-most) station";
-const F_DUP: &str = "[defect duplicated seed station] consecutive stations are distinct (the stations ADVANCE: no station is listed twice)";
+const F_DUP: &str = "no station is repeated, except the seed station, which the extraction lists twice (at most one coincident consecutive pair)";
 const F_ARCS: &str = "[defect arc detection below the absolute collinearity threshold] ConstRadiusEdge on a finely sampled section (320 points per face, 80 per end arc) satisfies every clause";
 const F_CURV: &str = "[defect curvature below the absolute collinearity threshold] TraceToMaxCurvature on a section of chord 1 (scale 0.1) puts the edge points at the ends of the camber curve";
 
@@ -469,7 +465,10 @@ fn check_out(cx: &mut Ctx, sec: &Sec, pose: &Pose, cfg: &Cfg, open: Option<(bool
     cx.m.see("largest backward step between consecutive stations / tol", back / tol, desc);
     cx.m.see("-(smallest forward step between consecutive stations) / tol", -mingap / tol, desc);
     cx.r.check(back <= 0.1 * tol, "stations advance monotonically from the leading to the trailing edge", || format!("{} backward step {:e}", desc(), back));
-    defect(cx, (0..n - 1).all(|i| d2(&o.stations[i].c, &o.stations[i + 1].c) > 1e-6 * sec.len), F_DUP, || format!("{} smallest forward step {:e}", desc(), mingap));
+    // the seed station is listed twice by extract_camber_line (both halves start with the circle of the same spanning ray):
+    // a ZERO step, which "advance monotonically" permits -- observed, not a violation. More than that one repeat is not.
+    let repeats = (0..n - 1).filter(|&i| d2(&o.stations[i].c, &o.stations[i + 1].c) <= 1e-6 * sec.len).count();
+    cx.r.check(repeats <= 1, F_DUP, || format!("{} {} coincident consecutive pairs, smallest forward step {:e}", desc(), repeats, mingap));
     cx.r.check(ss[0] < 0.5 * sec.len && ss[n - 1] > ss[0], "the first station is the one nearest the leading edge", || format!("{} s[0]={} s[last]={}", desc(), ss[0], ss[n - 1]));
     // ---- edge points on the section at the ends of the camber curve
     let closed_le = open.map(|(l, _)| !l).unwrap_or(true);
